@@ -1744,7 +1744,7 @@ class BuildTarget(Target):
         all_compilers = self.environment.coredata.compilers[self.for_machine]
         all_langs = set(self.compilers).union(self.get_langs_used_by_deps())
         stdlib_args: T.List[str] = []
-        for dl in all_langs:
+        for dl in sorted(all_langs):
             if dl != link_language and (dl, link_language) not in self._MASK_LANGS:
                 # We need to use all_compilers here because
                 # get_langs_used_by_deps could return a language from a
